@@ -381,7 +381,8 @@ def count_obligations(props_rel):
 
 
 def parse_assumptions(out):
-    """Split coqc output of a Props file into per-theorem Print Assumptions blocks."""
+    """Split coqc output of a Props file into per-theorem Print Assumptions blocks
+    (axiom names start in column 0, their types continue on indented lines)."""
     blocks = []
     cur = None
     for line in out.splitlines():
@@ -391,11 +392,11 @@ def parse_assumptions(out):
         elif line.startswith("Axioms:"):
             cur = [line]
             blocks.append(cur)
-        elif cur is not None and (line.startswith(" ") or line.strip() == ""):
-            if line.strip():
+        elif cur is not None:
+            if line.startswith(("File ", "Warning", "Error")):
+                cur = None
+            elif line.strip():
                 cur.append(line.strip())
-        else:
-            cur = None
     return [b if isinstance(b, str) else " ".join(b) for b in blocks]
 
 
